@@ -434,6 +434,15 @@ package store
 //@ -- gcRecent(x): the blob of x is younger than the grace period, as blobMeta reports it (defined by the outcome of the
 //@ -- look-ups; assumed not to change during one collection); a recent index entry that is not a referrers response is a root too
 //@ ghost func gcRecent(d digest.Digest) bool
+//@ -- a referrers response among the index entries: the digest its subject annotation names ("" when that is not a digest),
+//@ -- and whether a blob of that digest exists as blobMeta reports it (assumed stable during the collection).  Every
+//@ -- response whose subject has a blob is either kept as a root or recorded in `subjects` under that subject - from where
+//@ -- the mark loop takes it when the subject turns out to be retained (referrers-settled and its siblings)
+//@ ghost func gcHasBlob(d digest.Digest) bool
+//@ pred subjDig(e) := digestOK(types.subjOf(e)) ? types.subjOf(e) : ""
+//@ pred tracked(sj, W, e) := queued(W, e.Digest, mtKind(e.MediaType)) ||
+//@        ((subjDig(e) in sj) && sj[subjDig(e)].Digest == e.Digest && mtKind(sj[subjDig(e)].MediaType) == mtKind(e.MediaType)) ||
+//@        subjDig(e) == "" || !gcHasBlob(subjDig(e))
 //@ pred gcRecentRoot(e, grace) := types.subjOf(e) == "" && grace >= 0 && gcRecent(e.Digest)
 //@ pred refQueued(sj, W, x) := (x in sj) ==> queued(W, sj[x].Digest, mtKind(sj[x].MediaType))
 
@@ -452,6 +461,7 @@ package store
 //@   ensures [no-entry-without-blob]{C06} err == nil ==> forall k: int :: 0 <= k && k < len(out.Manifests) && out.Manifests[k].Digest != "" ==> blobExists[out.Manifests[k].Digest]
 //@   assume [recent-is-stable-1] after "repo.blobMeta(d.Digest, locked)"#1: (ret1 == nil && ret0.mod > cutoff) <==> gcRecent(d.Digest)
 //@   assume [recent-is-stable-2] after "repo.blobMeta(d, locked)": (ret1 == nil && ret0.mod > cutoff) <==> gcRecent(d#3)
+//@   assume [has-blob-is-stable] after "repo.blobMeta(dig, locked)": (ret1 == nil) <==> gcHasBlob(dig)
 //@   assume [readable-is-stable] after "repo.blobGet(d.Digest, locked)": (ret1 == nil) <==> gcReadable(d#2.Digest)
 //@   assume [index-decoded-once] after "Decode(&man)"#1: ret == nil && br != nil && br.of == d#2.Digest ==> len(man.Manifests) == gcIdxN(d#2.Digest) &&
 //@             (forall k: int :: 0 <= k && k < len(man.Manifests) ==> man.Manifests[k].Digest == gcIdxChild(d#2.Digest, k) &&
@@ -471,6 +481,12 @@ package store
 //@   loop 1,2,3,4: invariant [index-apart]{C05} arr(index.Manifests) != arr(manifests)
 //@   loop 1: invariant [roots-queued]{C05} uses(call.Descriptor.Copy@*, 1:index-apart, assume.recent-is-stable-1) forall k: int :: 0 <= k && k <= rangeindex && k < len(index.Manifests) && (gcRoot(index.Manifests[k], *conf.Storage.GC.Untagged) || gcRecentRoot(index.Manifests[k], conf.Storage.GC.GracePeriod)) ==>
 //@             queued(manifests, index.Manifests[k].Digest, mtKind(index.Manifests[k].MediaType))
+//@   loop 1: invariant [responses-tracked]{C05} uses(call.Descriptor.Copy@*, 1:index-apart, 1:index-wf, assume.has-blob-is-stable) subjects != nil && forall k: int :: 0 <= k && k <= rangeindex && k < len(index.Manifests) && types.subjOf(index.Manifests[k]) != "" ==>
+//@             tracked(subjects, manifests, index.Manifests[k])
+//@   loop 2,3,4: invariant [responses-settled]{C05} uses(assume.*, call.MediaTypeIndex@*, call.MediaTypeImage@*, call.Descriptor.Copy@*, call.Repo.blobGet@*, 2:maps, 3:maps, 4:maps, 1:responses-tracked, 2:responses-settled, 3:responses-settled, 4:responses-settled, 1:index-apart, 2:index-apart, 3:index-apart, 4:index-apart) forall k: int :: 0 <= k && k < len(index.Manifests) && types.subjOf(index.Manifests[k]) != "" ==>
+//@             settled(walked, manifests, index.Manifests[k].Digest, mtKind(index.Manifests[k].MediaType)) ||
+//@             ((subjDig(index.Manifests[k]) in subjects) && subjects[subjDig(index.Manifests[k])].Digest == index.Manifests[k].Digest && mtKind(subjects[subjDig(index.Manifests[k])].MediaType) == mtKind(index.Manifests[k].MediaType)) ||
+//@             subjDig(index.Manifests[k]) == "" || !gcHasBlob(subjDig(index.Manifests[k]))
 //@   loop 2,3,4: invariant [roots-settled]{C05} uses(assume.*, call.MediaTypeIndex@*, call.MediaTypeImage@*, call.Descriptor.Copy@*, call.Repo.blobGet@*, 2:maps, 3:maps, 4:maps, 2:roots-settled, 3:roots-settled, 4:roots-settled, assume.recent-is-stable-1, 1:roots-queued, 1:index-apart, 2:index-apart, 3:index-apart, 4:index-apart) forall k: int :: 0 <= k && k < len(index.Manifests) && (gcRoot(index.Manifests[k], *conf.Storage.GC.Untagged) || gcRecentRoot(index.Manifests[k], conf.Storage.GC.GracePeriod)) ==>
 //@             settled(walked, manifests, index.Manifests[k].Digest, mtKind(index.Manifests[k].MediaType))
 //@   loop 2,3,4: invariant [maps]{C05} seen != nil && walked != nil
@@ -516,6 +532,10 @@ package store
 //@   -- of the statement is then contained in the marked set (Knaster-Tarski step, stated in DESIGN.md, not mechanised)
 //@   assert [closed-roots]{C05} uses(assume.*, 2:maps, 2:roots-settled) before "repo.blobList(locked)": forall k: int :: 0 <= k && k < len(index.Manifests) && (gcRoot(index.Manifests[k], *conf.Storage.GC.Untagged) || gcRecentRoot(index.Manifests[k], conf.Storage.GC.GracePeriod)) ==>
 //@             walked[keyOf(walked, index.Manifests[k].Digest, mtKind(index.Manifests[k].MediaType))] || !gcReadable(index.Manifests[k].Digest)
+//@   assert [closed-responses]{C05} uses(assume.*, 2:maps, 2:responses-settled) before "repo.blobList(locked)": forall k: int :: 0 <= k && k < len(index.Manifests) && types.subjOf(index.Manifests[k]) != "" ==>
+//@             walked[keyOf(walked, index.Manifests[k].Digest, mtKind(index.Manifests[k].MediaType))] || !gcReadable(index.Manifests[k].Digest) ||
+//@             ((subjDig(index.Manifests[k]) in subjects) && subjects[subjDig(index.Manifests[k])].Digest == index.Manifests[k].Digest && mtKind(subjects[subjDig(index.Manifests[k])].MediaType) == mtKind(index.Manifests[k].MediaType)) ||
+//@             subjDig(index.Manifests[k]) == "" || !gcHasBlob(subjDig(index.Manifests[k]))
 //@   assert [closed-children]{C05} uses(assume.*, 2:maps, 2:index-children-settled) before "repo.blobList(locked)": forall x: digest.Digest, j: int :: {gcIdxChild(x, j)} walked[keyOf(walked, x, 1)] && gcClean(x, 1) && 0 <= j && j < gcIdxN(x) ==>
 //@             walked[keyOf(walked, gcIdxChild(x, j), gcIdxChildKind(x, j))] || !gcReadable(gcIdxChild(x, j))
 //@   assert [closed-referrers]{C05} uses(assume.*, 2:maps, 2:referrers-settled) before "repo.blobList(locked)": forall wk: walkKey :: walked[wk] && gcClean(wk.dig, wk.kind) && (wk.dig in subjects) ==>
@@ -550,6 +570,7 @@ package store
 //@ -- every index met on the way (at any depth) has had its children recorded
 //@ func indexIngest(repo Repo, index *types.Index, conf config.Config, locked bool) (mod bool, err error)
 //@   requires [conf-defaulted] config.defaulted(conf)
+//@   requires [repo] repo != nil && index != nil
 //@   ensures [nested-indexes-all-scanned]{C10,C02} err == nil ==> len(scanChildren) == 0
 //@   -- C17, the conversion terminates and can be repeated: (1) both implementations of BlobCreate take the repository lock,
 //@   -- so with the lock held (locked == true: the directory store loads its index under the lock) nothing may be done
@@ -606,6 +627,22 @@ package store
 //@ -- from disk (dirRepo.indexLoad, memRepo.repoInit): that an index.json found on disk is well-formed is an assumption
 //@ -- about the directory, and stays open there.
 //@ pred uploadsInv(c) := c != nil && cache.cacheInv(c) && !held(c.mu)
+
+//@ -- the collection of a memory repository works on the repository's own, well-formed index and installs a well-formed one
+//@ funcs memRepo.gc
+//@   requires invariant [index-wf] types.wfIndex(recv.index)
+
+//@ -- a memory repository always has its blob map (built in mem.RepoGet, never reassigned): object invariant
+//@ funcs memRepo.blobGet memRepo.blobMeta memRepo.blobDelete memRepo.blobList memRepo.blobCreate
+//@   requires invariant [blob-map] recv.blobs != nil
+//@ funcs memRepoUpload.Close
+//@   requires invariant [owner] recv.mr != nil && recv.mr.blobs != nil
+
+//@ -- the shared code is handed a repository and an index, never nil (every caller passes its own receiver)
+//@ func repoGetIndex(repo Repo, d types.Descriptor, locked bool) (i types.Index, err error)
+//@   requires [repo] repo != nil
+//@ func indexValidReferrer(repo Repo, index types.Index, locked bool) (valid bool, subject digest.Digest, responses map[digest.Digest][]types.Descriptor)
+//@   requires [repo] repo != nil
 
 //@ funcs memRepo.IndexGet memRepo.IndexInsert memRepo.IndexRemove memRepo.BlobSession memRepo.blobCreate memRepo.BlobCreate
 //@   requires invariant [index-wf] types.wfIndex(recv.index)
